@@ -142,6 +142,38 @@ def run(ctx):
     gcfg = typer.cfg_of(ga)
     rets = gcfg.stmt_nodes(("return",))
     ok = False
+    # the forwarding written with an explicit "missing" marker: v = getattr(<target>, name, M); if v is M: raise AttributeError; return v
+    sentinel_form = None
+    for c_ in walk_own(ga.node):
+        if isinstance(c_, ast.Call) and norm(c_.func) == "getattr" and len(c_.args) == 3 and norm(c_.args[1]) == gname:
+            from .common import resolve_local
+            tgt_ = resolve_local(ga, c_.args[0])
+            if norm(tgt_) == "%s.target" % ga.selfname:
+                sentinel_form = c_
+    if sentinel_form is not None:
+        d_ = sentinel_form.args[2]
+        modv = (ga.module.assigns or {}).get(d_.id) if isinstance(d_, ast.Name) else None
+        is_marker = isinstance(modv, ast.Call) and norm(modv.func) == "object" and not modv.args
+        holder = [a_ for a_ in walk_own(ga.node) if isinstance(a_, ast.Assign) and a_.value is sentinel_form and len(a_.targets) == 1
+                  and isinstance(a_.targets[0], ast.Name)]
+        var_ = holder[0].targets[0].id if holder else None
+        raises_ = [rn for rn in gcfg.stmt_nodes(("raisestmt",)) if any(
+            isinstance(c, ast.Compare) and len(c.ops) == 1 and isinstance(c.ops[0], ast.Is) and o is True and var_ is not None
+            and sorted([norm(c.left), norm(c.comparators[0])]) == sorted([var_, norm(d_)]) for c, o, _ in gcfg.guards_of(rn))]
+        returns_ = [r for r in rets if var_ is not None and isinstance(r.ast.value, ast.Name) and r.ast.value.id == var_]
+        if not is_marker and raises_:
+            ctx.viol("L2", ga, sentinel_form, "a forwarded attribute whose current value is `%s` is reported as missing (AttributeError): the default of "
+                     "getattr() is a value an attribute can legitimately have, not a private marker object" % norm(d_),
+                     construct="__getattr__: missing-marker %s" % norm(d_))
+        elif not raises_ and (any(r.ast.value is sentinel_form for r in rets) or returns_):
+            ctx.viol("L2", ga, sentinel_form, "the forwarded read has a default (`%s`) and no AttributeError follows: an attribute the target does "
+                     "not have reads as that default instead of raising" % norm(d_), construct="__getattr__: default %s returned" % norm(d_))
+        elif is_marker and raises_ and returns_ and all("AttributeError" in norm(rn.ast.exc) for rn in raises_ if rn.ast.exc is not None):
+            ctx.inst("L2", ga, sentinel_form, "forwarded with a private marker object; AttributeError when the target lacks the attribute")
+            ok = "sentinel"
+        else:
+            ctx.extra.setdefault("undecided", []).append("L2: how __getattr__ forwards with a getattr default is not followed")
+            ok = "sentinel"
     for r in rets:
         v = r.ast.value
         if isinstance(v, ast.Call) and norm(v.func) == "getattr" and [norm(a) for a in v.args] == ["%s.target" % ga.selfname, gname] and not v.keywords:
@@ -151,6 +183,10 @@ def run(ctx):
                 ok = True
     extra = []
     tabnodes = [t for t, _ in gtabs]
+
+    def _is_marker_test(t):
+        return ok == "sentinel" and isinstance(t, ast.Compare) and len(t.ops) == 1 and isinstance(t.ops[0], (ast.Is, ast.IsNot)) \
+            and sentinel_form is not None and norm(sentinel_form.args[2]) in (norm(t.left), norm(t.comparators[0]))
     for r in rets:
         v = r.ast.value
         if isinstance(v, ast.Call) and norm(v.func) == "getattr" and [norm(a) for a in v.args] == ["%s.target" % ga.selfname, gname]:
@@ -166,8 +202,10 @@ def run(ctx):
                     stack.extend(t.values)
                 elif isinstance(t, ast.UnaryOp) and isinstance(t.op, ast.Not):
                     stack.append(t.operand)
-                elif not any(t is tn for tn in tabnodes):
+                elif not any(t is tn for tn in tabnodes) and not _is_marker_test(t):
                     extra.append(t)
+    if ok == "sentinel":
+        extra = [t for t in extra if not _is_marker_test(t)]
     if extra:
         ok = False
         ctx.viol("L2", ga, extra[0], "__getattr__ refuses to forward names under the additional condition `%s`: reads of such "
@@ -238,6 +276,8 @@ def run(ctx):
     for s, t in zip(body, texts):
         if kw and ("self.__dict__.update(%s)" % kw) in t:
             ctx.viol("L4", init, s, "keyword attributes are stored on the link instead of the target")
+    if ctx.extra.get("undecided") and not ctx.new_findings():
+        raise AnalysisError("C20 " + "; ".join(ctx.extra["undecided"][:2]))
     ctx.floor("L1", 2)
     ctx.floor("L2", 3)
     ctx.floor("L3", 2)
